@@ -781,75 +781,102 @@ def run(ctx) -> None:
                 outs.add({"True": True, "False": False}.get(t[1], UNK))
         return outs
 
+    # every are_comparable call of the analyzer module (methods *and* module-level helpers), by the role of its arguments:
+    # `<tag value>.unit` is the tag's unit, `<...>.tag_unit` the unit written in the condition - whatever the locals are called
+    def loose_role(e, fn_):
+        e2 = expand_local(e, local_single_defs(fn_))
+        if isinstance(e2, ast.Attribute) and e2.attr == "unit":
+            return "TAG"
+        if isinstance(e2, ast.Attribute) and e2.attr == "tag_unit":
+            return "COND"
+        return None
+    swapped_somewhere = False
+    for fn_ in list(prog.module(AN).functions.values()) + [m_ for c_ in prog.module(AN).classes.values() for m_ in c_.methods.values()]:
+        for c_ in walk_no_nested(fn_.node):
+            if isinstance(c_, ast.Call) and call_attr(c_) == "are_comparable" and len(c_.args) == 2:
+                rr = (loose_role(c_.args[0], fn_), loose_role(c_.args[1], fn_))
+                if set(rr) == {"TAG", "COND"} and rr != rt_roles:
+                    swapped_somewhere = True
+                    ctx.fail("R20c", fn_, c_, f"{fn_.short}: are_comparable argument order == run-time order",
+                             f"the analyzer calls are_comparable{rr} while the run-time calls it with {rt_roles}: the relation is "
+                             "order dependent ('%' lists vol%/wt%/mol%, they do not list '%'), so the analyzer accepts a condition in "
+                             "'%' on a tag in 'vol%' that the engine then fails with 'Cannot compare values with incompatible units'")
     adefs = local_single_defs(ac)
     gac = cfg_of(ac)
     acalls = [(n, c) for n in gac.nodes if n.kind == "stmt" for c in n.calls() if call_attr(c) == "are_comparable"]
     if len(acalls) != 1 or not isinstance(acalls[0][0].ast, ast.Assign) or not isinstance(acalls[0][0].ast.targets[0], ast.Name):
-        raise AnchorError("analyze_condition: `x = are_comparable(...)` not found exactly once")
-    cnode, ccall2 = acalls[0]
-    cvar = cnode.ast.targets[0].id
-    an_roles = (role(ccall2.args[0], adefs), role(ccall2.args[1], adefs))
-    k = "are_comparable argument order: analyzer == run-time"
-    # map run-time roles onto are_comparable's parameter order
-    if an_roles == rt_roles and (rt_a, rt_b) == (cv_params[cv_params.index(rt_a)], cv_params[cv_params.index(rt_b)]):
-        ctx.ok("R20c", k + f" {an_roles}")
-    else:
-        ctx.fail("R20c", ac, ccall2, k, f"the analyzer calls are_comparable{an_roles} while the run-time calls it with {rt_roles}: "
-                 "the relation is not symmetric by construction, so the two sides can disagree")
+        if swapped_somewhere:
+            # the unit check was moved out of analyze_condition; the violation above is reported, the case analysis below
+            # (which needs the call in place) is skipped for this run
+            ctx.floor_failures.append("analyze_condition: `x = are_comparable(...)` not found exactly once (unit check moved)")
+            acalls = None
+        else:
+            raise AnchorError("analyze_condition: `x = are_comparable(...)` not found exactly once")
+    if acalls is not None:
+        cnode, ccall2 = acalls[0]
+        cvar = cnode.ast.targets[0].id
+        an_roles = (role(ccall2.args[0], adefs), role(ccall2.args[1], adefs))
+        k = "are_comparable argument order: analyzer == run-time"
+        # map run-time roles onto are_comparable's parameter order
+        if an_roles == rt_roles and (rt_a, rt_b) == (cv_params[cv_params.index(rt_a)], cv_params[cv_params.index(rt_b)]):
+            ctx.ok("R20c", k + f" {an_roles}")
+        else:
+            ctx.fail("R20c", ac, ccall2, k, f"the analyzer calls are_comparable{an_roles} while the run-time calls it with {rt_roles}: "
+                     "the relation is not symmetric by construction, so the two sides can disagree")
 
-    def arole(e):
-        r = role(e, adefs)
-        if r is not None:
-            return r
-        if isinstance(e, ast.Name) and e.id == cvar:
-            return "CMP"
-        return None
+        def arole(e):
+            r = role(e, adefs)
+            if r is not None:
+                return r
+            if isinstance(e, ast.Name) and e.id == cvar:
+                return "CMP"
+            return None
 
-    absx = Abs(arole)
-    n_cases = 0
-    for tu in (NONE, VAL):
-        for cu in (NONE, VAL):
-            ra, rb = (tu, cu) if rt_roles == ("TAG", "COND") else (cu, tu)
-            if tu == VAL and cu == VAL:
-                cmps = [True, False, "raise"]
-            else:
-                o = arc_outcomes(ra, rb)
-                if o == {True}:
-                    cmps = [True]
-                elif o == {False}:
-                    cmps = [False]
+        absx = Abs(arole)
+        n_cases = 0
+        for tu in (NONE, VAL):
+            for cu in (NONE, VAL):
+                ra, rb = (tu, cu) if rt_roles == ("TAG", "COND") else (cu, tu)
+                if tu == VAL and cu == VAL:
+                    cmps = [True, False, "raise"]
                 else:
-                    raise AnchorError(f"are_comparable({ra}, {rb}): abstract outcome {o} not decided")
-            for cmpv in cmps:
-                n_cases += 1
-                fails = cmpv is not True
-                case = f"tag unit {tu}, condition unit {cu}, are_comparable -> {cmpv}"
-                if not fails:
-                    ctx.ok("R20c", f"case [{case}]: run-time accepts", trivial=True)
-                    continue
+                    o = arc_outcomes(ra, rb)
+                    if o == {True}:
+                        cmps = [True]
+                    elif o == {False}:
+                        cmps = [False]
+                    else:
+                        raise AnchorError(f"are_comparable({ra}, {rb}): abstract outcome {o} not decided")
+                for cmpv in cmps:
+                    n_cases += 1
+                    fails = cmpv is not True
+                    case = f"tag unit {tu}, condition unit {cu}, are_comparable -> {cmpv}"
+                    if not fails:
+                        ctx.ok("R20c", f"case [{case}]: run-time accepts", trivial=True)
+                        continue
 
-                def on_stmt(n, env, flags, cmpv=cmpv):
-                    if n is cnode:
-                        if cmpv == "raise":
-                            return env, flags, "exc"
-                        env = dict(env)
-                        env["CMP"] = cmpv
-                        return env, flags, "normal"
-                    if _is_error_item(n):
-                        return env, flags | {"ERR"}, "normal"
-                    return None
-                res = _explore(gac, absx, {"TAG": tu, "COND": cu}, on_stmt)
-                silent = [r for r in res if r[0] == "return" and "ERR" not in r[2]]
-                if not res:
-                    raise AnchorError("analyze_condition: no path explored")
-                if not silent:
-                    ctx.ok("R20c", f"case [{case}]: every analyzer path reports an ERROR ({len(res)} paths)",
-                           {"rule": "R20c", "case": case, "paths": len(res)})
-                else:
-                    ctx.fail("R20c", ac, ac.node, f"case [{case}]", "the run-time comparison fails on incomparable units in this case "
-                             "but the analyzer has a path that reports nothing: " + " ; ".join(silent[0][3][-6:]))
-    if n_cases < 6:
-        raise AnchorError("R20c: fewer than 6 abstract cases")
+                    def on_stmt(n, env, flags, cmpv=cmpv):
+                        if n is cnode:
+                            if cmpv == "raise":
+                                return env, flags, "exc"
+                            env = dict(env)
+                            env["CMP"] = cmpv
+                            return env, flags, "normal"
+                        if _is_error_item(n):
+                            return env, flags | {"ERR"}, "normal"
+                        return None
+                    res = _explore(gac, absx, {"TAG": tu, "COND": cu}, on_stmt)
+                    silent = [r for r in res if r[0] == "return" and "ERR" not in r[2]]
+                    if not res:
+                        raise AnchorError("analyze_condition: no path explored")
+                    if not silent:
+                        ctx.ok("R20c", f"case [{case}]: every analyzer path reports an ERROR ({len(res)} paths)",
+                               {"rule": "R20c", "case": case, "paths": len(res)})
+                    else:
+                        ctx.fail("R20c", ac, ac.node, f"case [{case}]", "the run-time comparison fails on incomparable units in this case "
+                                 "but the analyzer has a path that reports nothing: " + " ; ".join(silent[0][3][-6:]))
+        if n_cases < 6:
+            raise AnchorError("R20c: fewer than 6 abstract cases")
 
     # ---- R20d
     sem = prog.cls(f"{AN}:SemanticCheckAnalyzer")
